@@ -49,7 +49,7 @@ EditStmt == /\ pc = "check" /\ objs[SigH].mut = {}
             /\ pc' = "done"
 
 DoTamper == /\ pc = "check" /\ Len(hist) = 3
-            /\ \E f \in {{101}, {1}, {101, 1}} : Step(Tamper(SigH, f, 0))
+            /\ \E f \in {{101}, {1}, {101, 1}, {201}} : Step(Tamper(SigH, f, 0))
             /\ pc' = "tampered"
 AfterTamper == /\ pc = "tampered"
                /\ LET o == objs[SigH] IN Step(Verify(SigH, 1, o.s, o.hdr, o.msgs))
